@@ -591,6 +591,8 @@ static void run_al(Choices &c, Ctx &ctx)
 	size_t nops = 1 + c.len(40);
 	auto idx_near = [&]() -> size_t {
 		size_t len = a.m.size();
+		if (len > 3000 || a.al->size > 6000)
+			return c.pickn(len + 1); // bounded data volume: indices at the capacity would double it with every step
 		switch (c.pick({4, 3, 3, 2, 1}))
 		{
 		case 0: return len ? c.pickn(len) : 0;
